@@ -56,6 +56,7 @@ def check_lwe_op(chk, v, name, spec):
     op, fa, fb, vop, vkind = spec
     f = v.fn(name)
     ps, _ = summ.pieces(v, f)
+    ps = summ.memcpy_as_stores(v, f, ps)        # a block copy of the mask is the element statement it stands for
     res = f.params[0]["n"]
     sample = next((p["n"] for p in f.params[1:] if "LweSample" in p["t"]), None)
     par = next((p["n"] for p in f.params if "LweParams" in p["t"]), None)
